@@ -33,6 +33,8 @@ TRANSFORMED = {
     "mox2+admid+tad": ("mox2", [("add_admid", {}), ("add_time_after_dose", {})]),
     "pheno+zoi": ("pheno", [("add_population_parameter", {"name": "POP_KIN", "init": 0.5, "lower": 0.0}),
                             ("set_zero_order_input", {"compartment": "CENTRAL", "expression": "POP_KIN"})]),
+    # syn_events with the CMT column as text: the NONMEM writer has to convert it before renumbering compartments
+    "syn_events+textcmt": ("syn_events", [("_text_columns", {"columns": ["CMT"]})]),
 }
 
 
@@ -805,10 +807,21 @@ def build_base(key: str):
             raise core.MachineryError("synthetic corpus was not written")
         return read_model(d / f"{key}.mod")
     ckey, chain = TRANSFORMED[key]
-    m = read_corpus(ckey)
+    m = build_base(ckey) if ckey in SYNTHETIC else read_corpus(ckey)
     for fname, kw in chain:
-        m = getattr(pm, fname)(m, **kw)
+        m = _text_columns(m, **kw) if fname == "_text_columns" else getattr(pm, fname)(m, **kw)
     return m
+
+
+def _text_columns(m, columns):
+    """A user-supplied dataset in which integer-coded columns are text (as after reading a csv with dtype=str):
+    `set_dataset(model, df, datatype='nonmem')`.  Opens the dtype-conversion branches of the code writers."""
+    import pharmpy.modeling as pm
+
+    df = m.dataset.copy()
+    for c in columns:
+        df[c] = df[c].astype(int).astype(str)
+    return pm.set_dataset(m, df, datatype="nonmem")
 
 
 # ----------------------------------------------------------------------------- argument generators
